@@ -108,7 +108,7 @@ Proof. rewrite nansum_squares_series by lia. now rewrite sum_from_zero. Qed.
 (* plain sum (used for signed/unsigned integer inputs, which hold no nulls): every row is added *)
 Lemma r_sum_nonnull a b c : is_null o a = false -> is_null o b = false ->
   r_sum o a b c = (if truthy c then add o a b else b, c + 1).
-Proof. intros Ha Hb. unfold r_sum. rewrite Ha, Hb. destruct (truthy c); reflexivity. Qed.
+Proof. intros Ha Hb. unfold r_sum. destruct (truthy c); reflexivity. Qed.
 
 Lemma sum_series l : forall a c, 0 <= c -> (forall x, is_null o x = false) ->
   series (r_sum o) l (a, c) = (sum_from c a l, c + len l).
